@@ -4,3 +4,7 @@ import CC.Thm.C03
 #print axioms CC.Thm.C03.dispatch_total
 #print axioms CC.Thm.C03.dispatch_sound
 #print axioms CC.Thm.C03.arms_sound
+#print axioms CC.Thm.C03.ladder_extracted
+#print axioms CC.Thm.C03.final_else_as_modelled
+#print axioms CC.Thm.C03.machine_types_as_modelled
+#print axioms CC.Thm.C03.extraction_clean
